@@ -36,6 +36,11 @@ pub struct TrMsg {
     pub enqueued: bool,
     /// global order number among all completed channel operations
     pub ord: u64,
+    /// sent by the scripted adversary after something it received differed from what it received in
+    /// the reference run: the replayed bytes were computed (in the reference run) from data this
+    /// run's adversary never saw, i.e. they carry information from another execution with the same
+    /// secrets (a rewinding adversary), which no real peer has
+    pub counterfactual: bool,
 }
 
 #[derive(Clone, Debug)]
@@ -276,6 +281,7 @@ impl Net {
             orig,
             enqueued: enq,
             ord: self.opctr,
+            counterfactual: false,
         });
         if enq {
             if swap {
@@ -431,6 +437,7 @@ impl Future for SendFut<'_> {
                 orig: None,
                 enqueued: false,
                 ord,
+                counterfactual: false,
             });
             return if net.send_to_closed_errs {
                 Poll::Ready(Err("peer closed".into()))
@@ -1140,6 +1147,10 @@ pub fn run(cfg: &RunCfg, task: Arc<dyn Task>) -> RunResult {
     let reference = cfg.scripted.as_ref().map(|s| s.1.clone());
     let mut ref_pos = 0usize;
     let mut script_open = scripted.is_some();
+    // per sender: number of messages the scripted party consumed so far; whether anything it consumed
+    // differed from the reference run
+    let mut script_recv_ctr = vec![0usize; n];
+    let mut script_diverged = false;
 
     let alive = |ends: &Vec<Option<End>>, p: usize| ends[p].is_none();
 
@@ -1223,6 +1234,11 @@ pub fn run(cfg: &RunCfg, task: Arc<dyn Task>) -> RunResult {
                         let data = m.orig.clone().unwrap_or_else(|| m.data.clone());
                         let tlen = g.transcript.len();
                         g.enqueue(c, m.to, &m.phase, data);
+                        if script_diverged {
+                            for t in g.transcript[tlen..].iter_mut() {
+                                t.counterfactual = true;
+                            }
+                        }
                         if before.is_none() && g.first_fault_at.is_some() {
                             // compare prefix with the reference
                             let same = tlen <= re.transcript.len()
@@ -1237,8 +1253,19 @@ pub fn run(cfg: &RunCfg, task: Arc<dyn Task>) -> RunResult {
                     }
                     Op::Recv { from } => {
                         let li = from * n + c;
-                        if g.links[li].inbox.pop_front().is_none() {
-                            g.links[li].in_flight.pop_front();
+                        let got = match g.links[li].inbox.pop_front() {
+                            Some(t) => Some(t),
+                            None => g.links[li].in_flight.pop_front(),
+                        };
+                        let k = script_recv_ctr[*from];
+                        script_recv_ctr[*from] += 1;
+                        let expected = re.transcript.iter().find(|m| m.from == *from && m.to == c && m.idx == k);
+                        let same = match (got, expected) {
+                            (Some(t), Some(e)) => g.transcript[t].data == e.data,
+                            _ => false,
+                        };
+                        if !same {
+                            script_diverged = true;
                         }
                         if let Some(w) = g.links[li].send_waker.take() {
                             w.wake();
